@@ -13,13 +13,20 @@ capacity."
 Model: `GoLevel.CacheM` (`Model/Cache.lean`), the interleaving system `sysStep` over the critical sections of
 `cache.go` / `lru.go`, for any number of threads and handles.  `Reachable g s`: `s` is reachable; with `g = true`
 the system is *guarded*: `Close` takes `r.mu` only while no thread sits between the decrement that brought a
-counter to zero in `Node.unRefExternal` and the `RLock` that follows it.  `close_race_*` below show that the
-finalisation properties are false without that hypothesis (a defect of the code: `unRefExternal` decides
-"I am the last one" before it synchronises with `Close`; `close_race_finalises_under_handle` is reproduced on the
-implementation by `checks/c17conc.go:c17FinaliseUnderHandle`).  The delFunc part no longer needs it: the model
-carries the version of `mBucket.delete` as configuration (`Shared.clearDel`, `Gen.cacheDeleteClearsDelFuncs`), and
-with the repaired one no delFunc runs twice in any reachable state (`delfunc_at_most_once`).  `lru_capacity` and the first part of
-`unique_live_value` hold for the unguarded system as well.
+counter to zero in `Node.unRefExternal` and the `RLock` that follows it.
+
+The model carries the version of the code as configuration (`Cfg`, read off the source by `tools/extract`:
+`Cfg.code`, used by `Sys.init` / `Shared.new`): `clearDel` — `mBucket.delete` takes the delFuncs out of the removed
+node before calling them (repair of D30) — and `recheck` — the closed branch of `unRefExternal` calls the
+finaliser only if the counter is still zero (repair of D32).  Before these repairs the finalisation properties
+needed the guard: `close_race_finalises_under_handle` (`recheck = false`) and `close_race_delfunc_twice`
+(`clearDel = false`) are kept as the records of the two defects, both reproduced on the implementation at the
+time.  FOR THE CODE AS IT IS NO CLAUSE NEEDS THE GUARD: `no_finalise_under_handle(_code)`,
+`delfunc_at_most_once(_code)`, `finalise_exactly_once`, and `lru_capacity` / `unique_live_value` hold for every
+reachable state of the unguarded system.  What a `Close` race still produces there is a `callFinalizer` through a
+pointer to a node that `mBucket.delete` removed (`close_race_stale_finaliser`, flagged `bug` by the model): it
+finds neither a value nor delFuncs and does nothing.  (`Close(true)` finalises under outstanding handles by design:
+the clauses about handles carry `forced = false`.)
 
 `Node.callFinalizer` is one atomic step: the repaired code ("make Node.callFinalizer safe against a concurrent second
 call") takes the value and the delFuncs out of the node under `n.mu`; `callFinalizer_race` below records what the
@@ -37,14 +44,15 @@ namespace GoLevel.C17
 open GoLevel.CacheM
 
 /-- **unique_live_value.**  In every reachable state: (1) there is at most one node per (ns,key) — so `Get`s that
-overlap obtain handles to the same node; (2) (guarded or not yet closed, not force-closed) every outstanding
+overlap obtain handles to the same node; (2) (with the repaired `unRefExternal` — `recheck`, the code as it is — or
+guarded or not yet closed; not force-closed) every outstanding
 handle — of a caller, of the LRU list, or in flight in a thread — refers to an existing node that has its
 value; (3) a step never replaces the value of a node: it can only disappear, and only through its finaliser;
 keys never change; (4) the constructor (`setFunc`) runs only for a node without a value and installs the
 value it returns — once per residency. -/
 theorem unique_live_value {g : Bool} {s : Sys} (hr : Reachable g s) :
     (∀ n ∈ s.sh.nodes, ∀ m ∈ s.sh.nodes, n.key = m.key → n = m) ∧
-    ((g = true ∨ s.sh.closed = false) → s.sh.forced = false → ∀ id, 0 < outstanding s id →
+    ((g = true ∨ s.sh.recheck = true ∨ s.sh.closed = false) → s.sh.forced = false → ∀ id, 0 < outstanding s id →
         ∃ n ∈ s.sh.nodes, n.id = id ∧ n.value.isSome = true) ∧
     (∀ a s', sysStep g s a = some s' →
       (∀ n ∈ s.sh.nodes, ∀ n' ∈ s'.sh.nodes, n'.id = n.id →
@@ -72,7 +80,7 @@ theorem unique_live_value {g : Bool} {s : Sys} (hr : Reachable g s) :
   · intro hg hf id hpos
     have hle := outstanding_le_refs s id
     obtain ⟨n, hn, hid⟩ := hinv.core.ex id (by omega)
-    refine ⟨n, hn, hid, hinv.core.vl hg hf n hn ?_⟩
+    refine ⟨n, hn, hid, hinv.core.vl (eff_of hg) hf n hn ?_⟩
     unfold outstanding at hpos
     by_cases h1 : id ∈ s.sh.handles
     · exact Or.inl (hid ▸ h1)
@@ -106,13 +114,15 @@ theorem same_key_same_value {g : Bool} {s : Sys} (hr : Reachable g s) {n m : Nod
   subst this; exact ⟨rfl, rfl⟩
 
 /-- **finalise_once_after_release.**  (1) No value's `Release` appears twice in the history, and a finalised
-value is not resident any more; (2) in the guarded system (or before `Close`), unless the cache was
+value is not resident any more; (2) with the repaired `unRefExternal` (`recheck = true`, the code as it is:
+`code_closed_unref_rechecks`) — or in the guarded system, or before `Close` — and unless the cache was
 force-closed, a finaliser only runs in a state in which no handle to its node is outstanding (callers, LRU
-list and threads all counted). -/
+list and threads all counted).  Before that repair this needed the guard: `close_race_finalises_under_handle`.
+`no_finalise_under_handle` states it for the code's configuration without any side condition. -/
 theorem finalise_once_after_release {g : Bool} {s : Sys} (hr : Reachable g s) :
     (s.log.filterMap finVal).Nodup ∧
     (∀ v ∈ s.log.filterMap finVal, ∀ n ∈ s.sh.nodes, n.value ≠ some v) ∧
-    (∀ a s', sysStep g s a = some s' → s.sh.forced = false → (g = true ∨ s.sh.closed = false) →
+    (∀ a s', sysStep g s a = some s' → s.sh.forced = false → (g = true ∨ s.sh.recheck = true ∨ s.sh.closed = false) →
       ∀ id v f, Ev.fin id v f ∈ emitted s a → outstanding s id = 0) := by
   have hinv := inv_reachable hr
   have hlog := logOK_reachable hr
@@ -125,7 +135,7 @@ theorem finalise_once_after_release {g : Bool} {s : Sys} (hr : Reachable g s) :
     · rw [hem] at hev; cases hev
     · obtain ⟨hP, hperm⟩ := invP_at hinv ht
       rw [hem] at hev
-      have h0 := fin_refs_zero hP he hf hg hev (id := id) (by simp [isFinOf])
+      have h0 := fin_refs_zero hP he hf (eff_of hg) hev (id := id) (by simp [isFinOf])
       have hle := outstanding_le_refs s id
       have : refsP s.sh (pending s) id = refsP s.sh (i :: (pending s).erase i) id := by
         simp only [refsP]; rw [hperm.countP_eq]
@@ -212,7 +222,7 @@ delFunc attached to a node only runs in a state with no outstanding handle to th
 finds no node, its next two actions are the delFunc itself and the return. -/
 theorem del_after_last_handle {g : Bool} {s : Sys} (hr : Reachable g s) :
     ((g = true ∨ s.sh.clearDel = true ∨ s.sh.stale = false) → (s.log.filterMap delId).Nodup) ∧
-    (∀ a s', sysStep g s a = some s' → s.sh.forced = false → (g = true ∨ s.sh.closed = false) →
+    (∀ a s', sysStep g s a = some s' → s.sh.forced = false → (g = true ∨ s.sh.recheck = true ∨ s.sh.closed = false) →
       ∀ d id f, Ev.delf d (some id) f ∈ emitted s a → outstanding s id = 0) ∧
     (∀ (sh : Shared) k d, sh.closed = false → findKey sh.nodes k = none →
       exec sh (.bget k (.del (some d))) = some (sh, [.runDel d, .retBool false], []) ∧
@@ -230,7 +240,7 @@ theorem del_after_last_handle {g : Bool} {s : Sys} (hr : Reachable g s) :
     · rw [hem] at hev; cases hev
     · obtain ⟨hP, hperm⟩ := invP_at hinv ht
       rw [hem] at hev
-      have h0 := fin_refs_zero hP he hf hg hev (id := id) (by simp [isFinOf])
+      have h0 := fin_refs_zero hP he hf (eff_of hg) hev (id := id) (by simp [isFinOf])
       have hle := outstanding_le_refs s id
       have : refsP s.sh (pending s) id = refsP s.sh (i :: (pending s).erase i) id := by
         simp only [refsP]; rw [hperm.countP_eq]
@@ -286,30 +296,50 @@ def finUnderHandle (g : Bool) (s : Sys) (a : Act) : Bool :=
       | .fin id _ _ => decide (0 < outstanding s id)
       | _ => false
 
+/-- The code before the repair of D32: `mBucket.delete` already takes the delFuncs out of the node, `unRefExternal`
+does not re-check the counter yet. -/
+def cfgBeforeD32 : Cfg := { clearDel := true, recheck := false }
+
+/-- The code before the repair of D30 (and D32). -/
+def cfgBeforeD30 : Cfg := { clearDel := false, recheck := false }
+
 theorem raceSched_eval :
-    (runSched false (Sys.init 0 3) raceSched).map (fun s => finUnderHandle false s (.step 0)) = some true := by
+    (runSched false (Sys.initCfg cfgBeforeD32 0 3) raceSched).map
+      (fun s => finUnderHandle false s (.step 0)) = some true := by
   decide
 
-/-- **close_race_finalises_under_handle** — without the guard, `finalise_once_after_release` (2) fails:
-a reachable state of the unguarded system, not force-closed, in which a value is finalised while a caller
-holds a handle to it.  (`Cache.Close(false)` racing with the last `Handle.Release` and a `Get`.) -/
+/-- **close_race_finalises_under_handle** — RECORD OF A REPAIRED DEFECT (D32).  With `unRefExternal` as it was
+before the repair (`recheck = false`: on a closed cache it called `callFinalizer` without looking at the counter
+again) and without the guard, `finalise_once_after_release` (2) fails: a reachable state, not force-closed, in
+which a value is finalised while a caller holds a handle to it (`Cache.Close(false)` racing with the last
+`Handle.Release` and a `Get`).  Reproduced on the implementation before the repair
+(`checks/c17conc.go:c17FinaliseUnderHandle`, 77 of 904 000 trials; now part of the C17 run as a regression
+detector). -/
 theorem close_race_finalises_under_handle :
-    ∃ s a, Reachable false s ∧ s.sh.forced = false ∧ (sysStep false s a).isSome = true ∧
+    ∃ s a, Reachable false s ∧ s.sh.recheck = false ∧ s.sh.forced = false ∧ (sysStep false s a).isSome = true ∧
       ∃ id v f, Ev.fin id v f ∈ emitted s a ∧ 0 < outstanding s id := by
   have h := raceSched_eval
-  cases hs : runSched false (Sys.init 0 3) raceSched with
+  cases hs : runSched false (Sys.initCfg cfgBeforeD32 0 3) raceSched with
   | none => rw [hs] at h; cases h
   | some s =>
     rw [hs] at h
     simp only [Option.map_some, Option.some.injEq, finUnderHandle, Bool.and_eq_true, Bool.not_eq_true',
       List.any_eq_true] at h
     obtain ⟨⟨hf, hstep⟩, e, he, hout⟩ := h
-    refine ⟨s, .step 0, reachable_of_runSched (Reachable.init _ 0 3) hs, hf, hstep, ?_⟩
-    cases e <;> simp at hout
-    exact ⟨_, _, _, he, hout⟩
+    refine ⟨s, .step 0, reachable_of_runSched (Reachable.init _ 0 3) hs, ?_, hf, hstep, ?_⟩
+    · rw [recheck_runSched hs]; rfl
+    · cases e <;> simp at hout
+      exact ⟨_, _, _, he, hout⟩
 
 /-- The guarded system does not allow that schedule (the `Close` step is not enabled). -/
-example : runSched true (Sys.init 0 3) raceSched = none := by decide
+example : runSched true (Sys.initCfg cfgBeforeD32 0 3) raceSched = none := by decide
+
+/-- The same interleaving with the repaired `unRefExternal` (the code as it is): thread 0 finds the counter at 1
+and does not call the finaliser; run to the end, nothing was finalised and thread 1's handle still has its value. -/
+example :
+    (runSched false (Sys.init 0 3) (raceSched ++ [.step 0, .step 2])).map
+      (fun s => (pending s, s.log.filterMap finVal, s.sh.handles, s.sh.nodes.map (fun n => n.value))) =
+    some ([], [], [0], [some 0]) := by decide
 
 /-- Thread 0 as before; thread 1 gets the key again and releases it, which removes the node from its bucket;
 thread 2 closes; thread 0 then calls `callFinalizer` on the removed node (harmless since `mBucket.delete` takes the
@@ -358,27 +388,56 @@ detector). -/
 theorem close_race_delfunc_twice :
     ∃ s, Reachable false s ∧ s.sh.clearDel = false ∧ Quiescent s ∧ ¬ (s.log.filterMap delId).Nodup ∧
       s.log.filterMap delId = [0, 0] ∧ s.log.filterMap finVal = [0] := by
-  have h : (runSched false (Sys.initCfg false 0 3) delTwiceSched).map
+  have h : (runSched false (Sys.initCfg cfgBeforeD30 0 3) delTwiceSched).map
       (fun s => (pending s, s.log.filterMap delId, s.log.filterMap finVal)) = some ([], [0, 0], [0]) := by decide
-  cases hs : runSched false (Sys.initCfg false 0 3) delTwiceSched with
+  cases hs : runSched false (Sys.initCfg cfgBeforeD30 0 3) delTwiceSched with
   | none => rw [hs] at h; cases h
   | some s =>
     rw [hs] at h
     simp only [Option.map_some, Option.some.injEq, Prod.mk.injEq] at h
-    refine ⟨s, reachable_of_runSched (Reachable.init false 0 3) hs, ?_, h.1, ?_, h.2.1, h.2.2⟩
+    refine ⟨s, reachable_of_runSched (Reachable.init cfgBeforeD30 0 3) hs, ?_, h.1, ?_, h.2.1, h.2.2⟩
     · rw [clearDel_runSched hs]; rfl
     · rw [h.2.1]; decide
 
 /-- The same interleaving with the repaired `mBucket.delete`: the stale `callFinalizer` finds no delFuncs, delFunc 0
 runs once. -/
 example :
-    (runSched false (Sys.initCfg true 0 3) delTwiceSched).map
+    (runSched false (Sys.init 0 3) delTwiceSched).map
       (fun s => (pending s, s.log.filterMap delId, s.log.filterMap finVal)) = some ([], [0], [0]) := by decide
 
 /-- **code_delete_clears_delFuncs** — the configuration of the model is the code's: `tools/extract` finds, in
 `mBucket.delete`, `delFuncs := n.delFuncs; n.delFuncs = nil` between `n.mu.Lock()` and `n.mu.Unlock()` before the
 loop that calls them (and no `range n.delFuncs`).  `Shared.new` / `Sys.init` use this flag. -/
 theorem code_delete_clears_delFuncs : Gen.cacheDeleteClearsDelFuncs = true := by decide
+
+/-- **code_closed_unref_rechecks** — the second flag of the model's configuration is the code's: `tools/extract`
+finds that in the `if n.r.closed` branch of `Node.unRefExternal` the only call of `n.callFinalizer()` is inside
+`if atomic.LoadInt32(&n.ref) == 0 { … }`. -/
+theorem code_closed_unref_rechecks : Gen.cacheClosedUnrefRechecks = true := by decide
+
+/-- **no_finalise_under_handle** — with the repaired `unRefExternal` (`recheck = true`), in EVERY reachable state,
+guarded or not, unless `Close(true)` ran: every outstanding handle (caller's, LRU list's, in flight) refers to an
+existing node that has its value, and a step that releases a value or runs a delFunc of a node does so while no
+handle to that node is outstanding. -/
+theorem no_finalise_under_handle {g : Bool} {s : Sys} (hr : Reachable g s) (hc : s.sh.recheck = true)
+    (hf : s.sh.forced = false) :
+    (∀ id, 0 < outstanding s id → ∃ n ∈ s.sh.nodes, n.id = id ∧ n.value.isSome = true) ∧
+    (∀ a s', sysStep g s a = some s' →
+      (∀ id v f, Ev.fin id v f ∈ emitted s a → outstanding s id = 0) ∧
+      (∀ d id f, Ev.delf d (some id) f ∈ emitted s a → outstanding s id = 0)) :=
+  ⟨(unique_live_value hr).2.1 (Or.inr (Or.inl hc)) hf,
+   fun a s' hs => ⟨(finalise_once_after_release hr).2.2 a s' hs hf (Or.inr (Or.inl hc)),
+     (del_after_last_handle hr).2.1 a s' hs hf (Or.inr (Or.inl hc))⟩⟩
+
+/-- … in particular in every state run from `Sys.init`, the configuration read off the source. -/
+theorem no_finalise_under_handle_code {g : Bool} {c n : Nat} {sched : List Act} {s : Sys}
+    (h : runSched g (Sys.init c n) sched = some s) (hf : s.sh.forced = false) :
+    (∀ id, 0 < outstanding s id → ∃ n ∈ s.sh.nodes, n.id = id ∧ n.value.isSome = true) ∧
+    (∀ a s', sysStep g s a = some s' →
+      (∀ id v f, Ev.fin id v f ∈ emitted s a → outstanding s id = 0) ∧
+      (∀ d id f, Ev.delf d (some id) f ∈ emitted s a → outstanding s id = 0)) :=
+  no_finalise_under_handle (reachable_of_runSched (Reachable.init _ c n) h)
+    (by rw [recheck_runSched h]; exact code_closed_unref_rechecks) hf
 
 /-- **delfunc_at_most_once** — with the repaired `mBucket.delete` no delFunc runs twice in ANY reachable state,
 guarded or not, quiescent or not; in particular in every state reached from `Sys.init` (the code as extracted). -/
@@ -392,7 +451,7 @@ theorem delfunc_at_most_once_code {g : Bool} {c n : Nat} {sched : List Act} {s :
     (by rw [clearDel_runSched h]; exact code_delete_clears_delFuncs)
 
 /-- The guarded system does not allow that schedule either. -/
-example : runSched true (Sys.initCfg false 0 3) delTwiceSched = none := by decide
+example : runSched true (Sys.initCfg cfgBeforeD30 0 3) delTwiceSched = none := by decide
 
 /-! ## `callFinalizer`: before and after the repair
 
@@ -629,7 +688,9 @@ def theorems : List String :=
    "GoLevel.C17.del_after_last_handle", "GoLevel.C17.lru_capacity", "GoLevel.C17.ref_is_count",
    "GoLevel.C17.close_race_finalises_under_handle", "GoLevel.C17.close_race_stale_finaliser",
    "GoLevel.C17.close_race_delfunc_twice", "GoLevel.C17.code_delete_clears_delFuncs",
-   "GoLevel.C17.delfunc_at_most_once", "GoLevel.C17.delfunc_at_most_once_code", "GoLevel.C17.no_deadlock",
+   "GoLevel.C17.delfunc_at_most_once", "GoLevel.C17.delfunc_at_most_once_code",
+   "GoLevel.C17.code_closed_unref_rechecks", "GoLevel.C17.no_finalise_under_handle",
+   "GoLevel.C17.no_finalise_under_handle_code", "GoLevel.C17.no_deadlock",
    "GoLevel.C17.callFinalizer_race", "GoLevel.C17.callFinalizer_repaired",
    "GoLevel.C17.table_refines_map", "GoLevel.C17.table_buckets"]
 
